@@ -205,13 +205,14 @@ func (x *X) summariseLoop(fr *frame, order []*ssa.BasicBlock, li *loopInfo) {
 	w := x.sc.Fresh("w", SInt)
 	x.witnesses = append(x.witnesses, w)
 	x.witClass[w] = class
+	x.addPoint(w, class)
 	atW := func(s string) string { return replaceTok(s, k, w) }
 	x.sc.Assert(implies(entry.cond, fmt.Sprintf("(<= %s %s)", lo, w)))
 	x.sc.Assert(implies(entry.cond, not(atW(contName))))
 	if contName != "true" && contName != "false" {
 		fnName := contName[1 : len(contName)-len(k)-2]
 		x.sc.add("(assert " + implies(entry.cond, fmt.Sprintf("(forall ((%s Int)) (=> (and (<= %s %s) (< %s %s)) %s))", k, lo, k, k, w, contName)) + ") ;@inst")
-		x.quants = append(x.quants, quant{guard: entry.cond, fn: fnName, lo: lo, hi: w, class: class})
+		x.quants = append(x.quants, quant{guard: entry.cond, fn: fnName, lo: lo, hi: w, class: class, line: len(x.sc.lines)})
 	}
 	// values defined in the loop are now the values of iteration w
 	for v, val := range fr.vals {
